@@ -132,15 +132,26 @@ def subscribe(sid, iid, maj, egid, ttl=3, counter=0, o1=(), o2=()):
     return entry(6, sid, iid, maj, ttl, (counter << 16) | egid, o1, o2)
 
 
-def sd_bytes(entries, session, reboot=True, unicast=True, extra_flags=0):
-    """lay out entries with their options (no sharing) and encode a full SD datagram"""
+def sd_bytes(entries, session, reboot=True, unicast=True, extra_flags=0, share=False):
+    """lay out entries with their options (no sharing unless asked for: then a run that was laid out before is referenced
+    again, which messages with many entries need - option indexes are one byte wide) and encode a full SD datagram"""
     options = []
     ents = []
+    runs = {}
+
+    def place(run):
+        if not run:
+            return 0
+        key = tuple(bytes(o) if isinstance(o, (bytes, bytearray)) else repr(o) for o in run)
+        if share and key in runs:
+            return runs[key]
+        runs[key] = len(options)
+        options.extend(run)
+        return runs[key]
+
     for e in entries:
-        i1 = len(options) if e["o1"] else 0
-        options.extend(e["o1"])
-        i2 = len(options) if e["o2"] else 0
-        options.extend(e["o2"])
+        i1 = place(e["o1"])
+        i2 = place(e["o2"])
         ents.append(dict(type=e["type"], i1=i1, i2=i2, n1=len(e["o1"]), n2=len(e["o2"]), sid=e["sid"],
                          iid=e["iid"], maj=e["maj"], ttl=e["ttl"], val=e["val"]))
     flags = (0x80 if reboot else 0) | (0x40 if unicast else 0) | extra_flags
@@ -177,6 +188,23 @@ class PeerSession:
 
     def reboot(self):
         self.state = {}
+
+
+def client_filter(C, f, salt=0):
+    """the config.Service a client watches for the ids f = (service, instance, major, minor): bare, or - as an application
+    would that reuses its complete description of the service - listing eventgroups, or eventgroups and an endpoint option.
+    What a filter matches depends on its four ids only.  Deterministic per f (+ salt), so that watch / stop-watch agree."""
+    import ipaddress
+    import someip.header as H
+
+    style = (sum(f) + salt) % 3
+    if style == 0:
+        return C.Service(*f)
+    egs = frozenset({1, 2})
+    if style == 1:
+        return C.Service(*f, eventgroups=egs)
+    opt = H.IPv4EndpointOption(address=ipaddress.IPv4Address("10.9.9.9"), l4proto=H.L4Protocols.UDP, port=3999)
+    return C.Service(*f, eventgroups=egs, options_1=(opt,))
 
 
 _MAKE_SD_COUNT = [0]
